@@ -6,9 +6,9 @@ LEVEL = 'exploration'
 CONFIGS = [('p-entailment', ''), ('system-z', ''), ('system-w', 'rc2'), ('system-w', 'z3'), ('lex_inf', 'rc2'), ('lex_inf', 'z3')]
 WEAKLY = True
 WANT = 'weak_or_strong'
-RULE = ('weakly consistent bases (no finite layer; finite layers + non-empty infinity layer; strongly consistent ones for strict/extended agreement) x 8 queries x all operators/back-ends with weakly=True; judged by M2+M3 restricted to feasible worlds and finite layers; any exception is a violation; every 20th case is a LARGE strongly consistent base (corpus / unions, 10-60 atoms) on which the extended answers of the real code must equal its strict answers. Non-trivial = some feasible world satisfies A&B and some A&!B; distinct by hash(base, query, configuration).')
+RULE = ('weakly consistent bases (no finite layer; finite layers + non-empty infinity layer; strongly consistent ones for strict/extended agreement) x 8 queries x all operators/back-ends with weakly=True; judged by M2+M3 restricted to feasible worlds and finite layers; any exception is a violation; every 20th case is a LARGE strongly consistent base (corpus / unions, 10-60 atoms) on which the extended answers of the real code must equal its strict answers. Non-trivial = some feasible world satisfies A&B and some A&!B; distinct by hash(base, query, configuration). Additionally a bounded number of LARGE bases (8-100 atoms: shipped corpora, disjoint unions of generated bases) x 6 base-derived queries are judged by the same definition evaluated with satisfiability questions instead of world enumeration (vf/bigref.py: certified models, own z3 context, no MaxSAT/Tseitin/pysmt); System W by counterexample-guided search.')
 ASSUMPTIONS = ['worlds are enumerated: bases of <= 6 atoms (incl. query atoms outside the signature) and <= 8 conditionals, plus a ~5% share of "wide" bases with 7-8 atoms, 9-13 conditionals or 5-7 layers; formula depth <= 3 (deep equivalent wrappers to depth 9)', 'reference semantics vf/refmodel.py is the definition quoted in the property (self-tested on textbook instances at start-up)']
-TRUSTED = []
+TRUSTED = ["z3 'unsat' answers inside the large-base reference vf/bigref.py (its 'sat' answers are re-checked by the pure-Python evaluator)"]
 FLOOR = {'quick': 300, 'thorough': 3000}
 BUDGET = {'quick': 100, 'thorough': 1500}
 N = {'quick': 900, 'thorough': 10000}
